@@ -1,14 +1,20 @@
 PROP = dict(
     module="M3d.Props.C12",
-    gen=["McTable", "C2FMargin", "Kernels"],
-    tie_modules=["M3d.Lemmas.C2FMarginTie", "M3d.Lemmas.KernelsTiePartition"],
+    gen=["McTable", "C2FMargin", "RastMargin", "Kernels"],
+    tie_modules=["M3d.Lemmas.C2FMarginTie", "M3d.Lemmas.RastMarginTie", "M3d.Lemmas.KernelsTiePartition"],
     corr=dict(quick=600, thorough=1500),
     corr_theorems=(
         "mc/ms kinds: M3d.C12.mesh_indep_of_workers_and_filter, ms_mesh_indep_of_workers_and_filter, "
         "mc_scan_mesh_indep_of_procs (the driver answers with the plain mcMesh/msMesh of the labelling, which these "
         "theorems prove equal - as face multisets - to the filter/worker/slab models for every schedule and conservative filter); "
         "dc kind: dc_windows_each_edge_once, dc_mesh_indep_of_bufsize, dc_shift_preserves_overlap; "
-        "rast kind: tiles_partition_pixels, tile_fill_eq_render, raster_indep_of_filter; "
+        "rast kind: tiles_partition_pixels, tile_fill_eq_render, raster_indep_of_filter, raster_samples_in_tile, raster_rect_filter_indep; "
+        "same rastcollider: collider_filter_conservative, raster_collider_indep_of_filter (the tile filter c.CircleCollision(center, MinVal.Dist(center)+margin) is conservative for "
+        "the hollow solid of radius e whenever margin >= e >= 0, every scale/line width/geometry) together with the tie module M3d.Lemmas.RastMarginTie "
+        "(rc_filter_radius_covers, raster_collider_code_margin: halfDiag + hollow radius <= filter radius for the two expressions REGENERATED from RasterizeCollider, "
+        "Gen/RastMargin.lean, for every scale > 0); same rastcollidersolid: rcs_filter_radius_covers (the circle contains the tile; uniformity of the even-odd solid is not proved); "
+        "same mcsearch/mssearch: search_commutes_with_filter, ms_search_commutes_with_filter on top of mesh_indep_of_workers_and_filter; "
+        "same dcrepair: dc_repair_indep_of_enumeration (repair steps applied in a sorted order do not depend on the map enumeration order) on top of dc_mesh_indep_of_bufsize; "
         "msc2f/mcc2f kinds (coarse-to-fine on tapered solids): the driver evaluates M3d.C2F.seenAll2/3 with reach R = m (one coarse cell) on the two "
         "labellings and, when it holds, answers with the plain fine mesh: c2f_ms_sound / c2f_mc_sound (filter rejects only blocks without sign change when "
         "margin >= (R+m)*smallDelta = 2*bigDelta; via c2f_ms_mesh_eq / c2f_mc_mesh_eq, c2f_cover, coarse_mixed_cell_has_vertex2/3, c2f_search_stays_on_edge) "
@@ -23,8 +29,12 @@ PROP = dict(
         "elongated slabs, and lattices of > 300k cells (divideVolume = Volume/4096 > 64); settings: GOMAXPROCS in {1,2,3,8,16}, "
         "filters {true, exact, padded 1-2 cells, random conservative}, repeated runs, MarchingCubesC2F/MarchingSquaresC2F with coarse spacings 1..4x (up to 8x/32x on fat voxels) "
         "that still see every feature; DualContouring MaxGos in {0,1,2,8} x BufferSize from 1 (BufRows=4) over k*row to 2^40 x GOMAXPROCS, "
-        "triangle modes, clip on/off; Rasterizer subsamples in {1,2,3,4,8,16,17} (tiles of 16..1 px), images up to ~150x150, "
-        "RasterizeCollider/RasterizeColliderSolid against the unfiltered rendering. Coarse-to-fine group (msc2f/mcc2f): tapered solids of random orientation "
+        "triangle modes, clip on/off; Repair=true and/or default jitter (same dcrepair: repetition of the same setting, MaxGos 8 + BufferSize 1, random setting; half-filled voxel solids "
+        "with many singular edges/vertices; one fixed regression solid with equal angles round a singular edge); search refinement (same mcsearch/mssearch: iters in {1,2,4,7}, "
+        "Search/SearchFilter/Interior/Conj across GOMAXPROCS, exact float face multisets); Rasterizer subsamples in {1,2,3,4,8,16,17} (tiles of 16..1 px), images up to ~150x150, a quarter "
+        "with explicit Rasterizer.Bounds; RasterizeCollider against the unfiltered rendering of NewColliderSolidHollow(c, 0.5*LineWidth/Scale) on line drawings (closed stars, open polylines, "
+        "separate strokes) sized to 24..140 px with Scale log-uniform over 1/16..32 (half of the cases below one pixel per unit), LineWidth 0.4..7 px or default, Subsamples 1..16, optional Bounds; "
+        "RasterizeColliderSolid on the closed drawings. Coarse-to-fine group (msc2f/mcc2f): tapered solids of random orientation "
         "(2-D spikes, blunt wedges, spikes on a disc, tapering slots cut into a box; 3-D cones, blades, pyramids, also on a ball), base wider than bigDelta, "
         "tips narrowing to 0..0.3 bigDelta, spacing ratios 8/16/32 (2-D) and 8/16 (3-D), random phase against the coarse lattice; a candidate is emitted only when "
         "every fine sign-change cell is within one coarse spacing (max-norm) of a coarse sign-change cell (evaluated by the harness AND re-evaluated by the driver), "
@@ -48,7 +58,13 @@ PROP = dict(
         "hermite data depend only on the global lattice position, not on the window, is tied by the exact-coordinate comparison across settings (kind `same dc`), not proved",
         "rasteriser: the shade function floor((1-k/n)*255.999) is abstract in the theorems except shade(n,n)=0 and shade(0,n)=255 (checked on the real code by every fully "
         "inside/outside tile of the corpus; the driver evaluates it with the same float operations); that the sub-sample points of a tile's pixels lie in the tile's "
-        "rectangle is geometry left to the hypothesis 'solid constant on the tile'",
+        "rectangle is now proved (raster_samples_in_tile) in exact arithmetic",
+        "RasterizeCollider: the collider enters as an exact circle test (hits c r <-> some collider point within r: C07/C08); math.Sqrt inside Coord.Dist is uninterpreted with "
+        "sqrt(x)^2 = x, sqrt(x) >= 0; exact arithmetic. RasterizeColliderSolid: that a tile whose circumscribed circle misses a closed curve is uniform for the even-odd solid is not proved "
+        "(tied by same rastcollidersolid on closed drawings)",
+        "regenerated, not modelled: the radius of the hollow solid and the radii of the filter circles of RasterizeCollider/RasterizeColliderSolid and the shape of their closures "
+        "(Gen/RastMargin.lean, go/ast; r.lineWidth()/r.scale() are parameters)",
+        "DualContouring Repair=true: only the ORDER of the repair steps is modelled (sorted by coordinates since the fix: commits 09ce28e/08bc264), the steps are abstract; tied by same dcrepair",
         "coarse-to-fine: 'a coarse spacing that still sees every feature' is READ as: every fine sign-change cell is within one coarse spacing (max-norm) of a coarse "
         "sign-change cell (seenAll2/3 with R = m; the margin then needed is 2*bigDelta, which two 3-D cell diagonals 2*sqrt(3)*bigDelta cover); solids violating it are "
         "not compared (a documented limitation of C2F itself). Hypotheses of c2f_ms_sound/c2f_mc_sound that are not proved about the code: the filter keeps a block "
@@ -58,7 +74,7 @@ PROP = dict(
         "(2*sqrt(3) - 2)*bigDelta",
         "regenerated, not modelled: the margin expressions of MarchingSquaresC2F/MarchingCubesC2F and the shape of the filter closure (Gen/C2FMargin.lean, go/ast); "
         "math.Sqrt is uninterpreted with sqrt(x)^2 = x and sqrt(x) >= 0",
-        "DualContouring with Repair=true is not covered (post-processing iterates Go maps)",
+        "MeshInterior's interior points and DualContourSDF are not compared (not faces)",
     ],
     assumptions=[
         "solids are pure functions of the point (same answer every time) and false on the outer lattice layer",
@@ -71,13 +87,15 @@ PROP = dict(
         "MarchingCubes' for every worker count, every distribution of queue blocks over workers, every merge order and every conservative filter (rows 0/255 of the "
         "REGENERATED table are empty), same for marching squares; Scan's ring of g+1 caches presents every consecutive layer pair exactly once in order for every "
         "GOMAXPROCS and layer count; dcCubeLayout's windows triangulate every edge slot exactly once for every BufRows in [3..nz] with the needed cube rows inside the "
-        "buffer; raster tiles partition the pixels and a conservative tile filter changes no pixel; coarse-to-fine: for every integer spacing ratio, solid, schedule and "
+        "buffer; raster tiles partition the pixels, their sample points lie in the rectangle the filter sees, and a conservative tile filter changes no pixel; RasterizeCollider's own filter is "
+        "conservative for every scale > 0 and line width with the radii as written in the source (regenerated; proved: filter radius >= half tile diagonal + radius of the hollow solid); search "
+        "refinement commutes with filtering; repair steps applied in sorted order are independent of map enumeration; coarse-to-fine: for every integer spacing ratio, solid, schedule and "
         "extraSpace >= 0, if every fine sign-change cell is within one coarse spacing of a coarse sign-change cell then MarchingSquaresC2F/MarchingCubesC2F with the "
         "margin as written in the source (regenerated; proved >= 2*bigDelta) yield the plain fine face multiset. The models are tied to /repo on every run by executing the real "
         "routines under the listed settings and comparing with the plain model computed from the lattice labelling, and by hooks on the real Split/Pieces/Scan/dcCubeLayout."
     ),
     level_note=(
         "Proved about the models in lean/M3d/Model/Partition.lean; worker scheduling, filter oracle and per-edge independence are modelling assumptions listed under trusted; "
-        "C2F: proved up to the explicit hypotheses on RectCollision / the coarse mesh / msSearch listed under trusted, for the stated reading of 'sees every feature'; DC Repair not covered. Trusted: Lean kernel, table dump hook, Go harness and Lean driver (hashes, lattice replication)."
+        "C2F: proved up to the explicit hypotheses on RectCollision / the coarse mesh / msSearch listed under trusted, for the stated reading of 'sees every feature'; RasterizeCollider up to exactness of CircleCollision; DC Repair: order of steps only. Trusted: Lean kernel, table dump hook, Go harness and Lean driver (hashes, lattice replication)."
     ),
 )
